@@ -17,6 +17,7 @@ import BB.Oracle.Attempt
 import BB.Oracle.WaitCond
 import BB.Oracle.BufGate
 import BB.Oracle.BufConc
+import BB.Oracle.CleanGate
 
 open BB.Oracle
 
@@ -33,7 +34,8 @@ def families : List (String × Fam) := [
   ("attempt", AttemptFam.fam),
   ("waitcond", WaitCondFam.fam),
   ("bufgate", BufGateFam.fam),
-  ("bufconc", BufConcFam.fam)
+  ("bufconc", BufConcFam.fam),
+  ("cleangate", CleanGateFam.fam)
 ]
 
 structure OAcc (σ : Type) where
